@@ -1666,12 +1666,19 @@ func c19StampedRequestHdr(cc ClientConfig, ts uint64, version byte, lenDelta int
 	return out, nil
 }
 
+// c19HiddenWindowSec is the hidden-mode freshness window in SECONDS, as a protocol parameter of its own: the time stamp
+// on the wire is a Unix time in seconds (handshake_spec.md: timestamp = duplex.encrypt(time.Now().Unix())) and the
+// documentation of the parameter in transport/common.go says "5 sec". The harness deliberately does NOT read the code's
+// HiddenModeTimestampExpiration: an oracle that takes the window from the code under test moves with it (a change of the
+// constant's value, unit or type would shift the oracle, or - as a typed time.Duration - turn it into 5e9 seconds).
+const c19HiddenWindowSec = 5
+
 // c19Freshness reads a time stamp against the server's clock (seconds) the way the "delayed" and "future" classes
-// already do: must-be-silent needs a full second beyond the documented window (HiddenModeTimestampExpiration) on either
+// already do: must-be-silent needs a full second beyond the documented window (c19HiddenWindowSec) on either
 // side; a stamp that is ahead of the clock by less than that is not judged (clock-skew tolerance is not fixed by the
 // statement). The field is 64 bits wide and unsigned on the wire (binary.BigEndian.PutUint64 of a Unix time).
 func c19Freshness(ts uint64, now int64) string {
-	t, w := uint64(now), uint64(HiddenModeTimestampExpiration)
+	t, w := uint64(now), uint64(c19HiddenWindowSec)
 	switch {
 	case ts > t && ts-t >= w+1:
 		return "future"
@@ -1825,7 +1832,7 @@ func c19Hidden(c c19HiddenCase, v *vlib.Verdict, future []byte) (mach string) {
 	}
 	j := &c19HiddenJudge{v: v, watch: c19NewWatch(env.Net)}
 	inject := func(b []byte) { env.Net.Inject(src, vSrvAddr, b) }
-	window := int64(HiddenModeTimestampExpiration) * 1000
+	window := int64(c19HiddenWindowSec) * 1000
 
 	switch c.Class {
 	case "honest":
@@ -1862,7 +1869,7 @@ func c19Hidden(c c19HiddenCase, v *vlib.Verdict, future []byte) (mach string) {
 		case c.DelayMs >= window+1000:
 			v.NonTrivial = true
 			v.Label("delayed-beyond-window")
-			if !j.silent("stale-request:delayed", fmt.Sprintf("a valid request that was delivered %d ms after it was written (window %d s)", c.DelayMs, HiddenModeTimestampExpiration)) {
+			if !j.silent("stale-request:delayed", fmt.Sprintf("a valid request that was delivered %d ms after it was written (window %d s)", c.DelayMs, c19HiddenWindowSec)) {
 				return
 			}
 		case c.DelayMs <= window:
@@ -1949,7 +1956,7 @@ func c19Hidden(c c19HiddenCase, v *vlib.Verdict, future []byte) (mach string) {
 			env.Net.Inject(from, vSrvAddr, req)
 			c19Settle()
 			fr := c19Freshness(ts, now)
-			what := fmt.Sprintf("a correctly keyed and MACed request (%s) whose time stamp field is %#016x = %s, server clock %d (%#x), window %d s", step, ts, name, now, now, HiddenModeTimestampExpiration)
+			what := fmt.Sprintf("a correctly keyed and MACed request (%s) whose time stamp field is %#016x = %s, server clock %d (%#x), window %d s", step, ts, name, now, now, c19HiddenWindowSec)
 			if malformed != "" {
 				// not a well-formed request of this protocol, whatever its time stamp says
 				v.NonTrivial = true
@@ -2643,7 +2650,7 @@ func c19HiddenGen(L int) func(t *rapid.T) c19HiddenCase {
 			if c.VerXor != 0 || c.LenDelta != 0 {
 				// malformed requests matter most when everything else about them is acceptable
 				if rapid.IntRange(0, 2).Draw(t, "headerFreshStamp") > 0 {
-					c.TsAbs, c.TsNow, c.TsDelta = 0, true, -int64(rapid.IntRange(0, int(HiddenModeTimestampExpiration)).Draw(t, "freshBy"))
+					c.TsAbs, c.TsNow, c.TsDelta = 0, true, -int64(rapid.IntRange(0, int(c19HiddenWindowSec)).Draw(t, "freshBy"))
 				}
 			}
 		}
@@ -2724,7 +2731,7 @@ func c19SelfTestHidden(t *testing.T) int {
 		}
 		// the harness's copy of the request writer: stamped with the server's own clock (and 5 s before it) it is answered
 		// by the real server, one and two certificates, and has the length of an honest request
-		for _, c := range []c19HiddenCase{{Certs: 1, Class: "stamped", TsNow: true}, {Certs: 2, Target: 1, Class: "stamped", TsNow: true, TsDelta: -int64(HiddenModeTimestampExpiration)}} {
+		for _, c := range []c19HiddenCase{{Certs: 1, Class: "stamped", TsNow: true}, {Certs: 2, Target: 1, Class: "stamped", TsNow: true, TsDelta: -int64(c19HiddenWindowSec)}} {
 			var v vlib.Verdict
 			var mach string
 			res := vlib.Bubble(t, 60*time.Second, func() { mach = c19Hidden(c, &v, nil) })
